@@ -21,4 +21,5 @@ INVARIANT DebugTransparent
 INVARIANT Refines
 INVARIANT InferEscapesAsRaised
 INVARIANT FnFaultAnticipated
+INVARIANT ArithFaults
 INVARIANT TrailShape
